@@ -121,6 +121,31 @@ var specs = map[string]*CheckSpec{
 		Real: atpReal, Stub: commonStub,
 		Assume: []string{"the peer is the SDK's own server (healthy by construction)", "harness drains signalsFromStep and closes signalsToStep as the API documentation asks", "scheduling delays are logical (no fake time passes while a goroutine is held)"},
 	},
+	"C07": {
+		ID: "C07", Flavour: "atp", Level: "fault_enumeration",
+		Quick: []Batch{
+			{Name: "c07.valid", Count: 2500},
+			{Name: "c07.steps", Count: 2500},
+			{Name: "c07.hostile", Count: 3000},
+			{Name: "c07.garbage", Count: 2500},
+			{Name: "c07.unknownsig", Count: 600},
+			{Name: "c07.anydata", Count: 600},
+			{Name: "c07.crash", Count: 48, Extra: map[string]any{"every_byte": false, "stride": 8}},
+		},
+		Thorough: []Batch{
+			{Name: "c07.valid", Count: 100000},
+			{Name: "c07.steps", Count: 100000},
+			{Name: "c07.hostile", Count: 150000},
+			{Name: "c07.garbage", Count: 100000},
+			{Name: "c07.unknownsig", Count: 20000},
+			{Name: "c07.anydata", Count: 20000},
+			{Name: "c07.crash", Count: 400, Extra: map[string]any{"every_byte": true}},
+		},
+		Rule: "each run = the real RunATPServer with a generated plugin against a scripted client drawn from a grammar of valid and invalid behaviour, under one seeded schedule; crash batches re-run a base script with end-of-input / read error / garbage at every enumerated byte offset of the client stream (thorough: every offset) plus output-side faults; distinct = schedule signature x fault point; non-trivial = a fault fired or a runnable goroutine was preempted",
+		Real: []string{"atp server (atp/server.go)", "schema package incl. step/signal plumbing", "fxamacker/cbor"},
+		Stub: append([]string{"atp client -> scripted client (canonical CBOR encoder of the harness)"}, commonStub...),
+		Assume: []string{"accepted work-start = well-formed envelope of type 1 with non-empty run and step IDs and decodable body, as decided by the harness's reference decoder on the bytes actually delivered", "a panic in any server goroutine is process death (descriptors closed)"},
+	},
 	"C05": {
 		ID: "C05", Flavour: "atp", Level: "exploration",
 		Quick: []Batch{
